@@ -164,6 +164,24 @@ def extract(ctx):
              'TocFetcher._disconnected missing (fix D21 not in this tree)')
     g.strings('tocDisconnectedBody', sorted(_stmts(X.find(toc, 'TocFetcher._disconnected'))))
     g.strings('tocFinishedRemovals', sorted(_calls(X.find(toc, 'TocFetcher._toc_fetch_finished'), ('remove_port_callback', 'remove_callback'))))
+    # Toc as an object: its attributes, who assigns them, and how a cached table is installed
+    tcls = X.find(toc, 'Toc')
+    attrs, lookup_writes = set(), []
+    for fn in [n for n in tcls.body if isinstance(n, ast.FunctionDef)]:
+        for n in ast.walk(fn):
+            tgts = n.targets if isinstance(n, ast.Assign) else [n.target] if isinstance(n, (ast.AugAssign, ast.AnnAssign)) else []
+            for tg in tgts:
+                for sub in ast.walk(tg):
+                    if isinstance(sub, ast.Attribute) and isinstance(sub.value, ast.Name) and sub.value.id == 'self':
+                        attrs.add('self.' + sub.attr)
+                        if fn.name.startswith('get_'):
+                            lookup_writes.append('%s: %s' % (fn.name, ast.unparse(n)))
+    g.strings('tocAttrs', sorted(attrs))
+    g.strings('tocLookupWrites', lookup_writes)
+    g.strings('tocClearBody', [ast.unparse(n) for n in X.find(tcls, 'clear').body if not (isinstance(n, ast.Expr) and isinstance(n.value, ast.Constant))])
+    g.strings('cacheFetch', [ast.unparse(n) for n in ast.walk(cb) if isinstance(n, ast.Assign) and ast.unparse(n.targets[0]) == 'cache_data'])
+    g.strings('cacheInstall', [ast.unparse(n) for n in ast.walk(cb) if isinstance(n, ast.Assign) and ast.unparse(n.value) == 'cache_data'])
+    g.strings('cacheTests', [ast.unparse(n.test) for n in ast.walk(cb) if isinstance(n, ast.If) and 'cache_data' in ast.unparse(n.test)])
     # Toc lookups
     t = X.find(toc, 'Toc')
     gi = X.find(t, 'get_element_id')
